@@ -279,6 +279,12 @@ type c12Case struct {
 // checkRegistryConsistency is shared by C12 (global) and by the generated
 // filtered-registry lookups.
 func checkRegistryConsistency(r lint.Registry, bad func(sig, msg string)) {
+	if sig, msg := apiGuard(func() (string, string) { checkRegistryConsistencyInner(r, bad); return "", "" }); msg != "" {
+		bad(sig, msg)
+	}
+}
+
+func checkRegistryConsistencyInner(r lint.Registry, bad func(sig, msg string)) {
 	names := r.Names()
 	for i := 1; i < len(names); i++ {
 		if !(names[i-1] < names[i]) {
